@@ -23,6 +23,7 @@ type Ctx struct {
 	Repo     string
 	Verif    string
 	Thorough bool
+	shrinkers map[*types.Var]map[*types.Func]bool
 	boundsSeen map[string]bool
 
 	cfgs     map[*ast.FuncDecl]*cfg.CFG
